@@ -240,7 +240,7 @@ fn one(rep: &mut Report, d: &Dict, b: &Value, idx: usize, seed: u64) {
     let serial: Serial = match idx % 3 { 0 => 0.into(), 1 => u32::MAX.into(), _ => (u32::MAX - 1).into() };
     let ctx = |extra: Value| json!({"dict": d.name, "behaviour": b, "serial": u32::from(serial), "extra": extra});
 
-    let mut single = |rep: &mut Report, old: &AbsSet, new: &AbsSet, so: &PayloadSnapshot, sn: &PayloadSnapshot,
+    let single = |rep: &mut Report, old: &AbsSet, new: &AbsSet, so: &PayloadSnapshot, sn: &PayloadSnapshot,
                       serial: Serial, exp: &Value, tag: &str| -> PayloadDelta {
         let exp = expected_actions(exp);
         let real = PayloadDelta::construct(so, sn, serial);
